@@ -243,6 +243,14 @@ def stochasticRsi (p : Nat) (c : Sig α) : Sig α :=
   let mx := movingMax p r
   div (sub r0 mn) (sub mx mn)
 
+/-- StochasticRsi whose RSI period differs from the min/max look-back `w` -/
+def stochasticRsiG (rp w : Nat) (c : Sig α) : Sig α :=
+  let r := rsi rp c
+  let r0 := skip (w - 1) r
+  let mn := movingMin w r
+  let mx := movingMax w r
+  div (sub r0 mn) (sub mx mn)
+
 def williamsR (p : Nat) (highs lows closings : Sig α) : Sig α :=
   let highest := movingMax p highs
   let lowest := movingMin p lows
@@ -286,6 +294,13 @@ def donchianChannel (p : Nat) (c : Sig α) : List (Sig α) :=
 def keltnerChannel (p : Nat) (h l c : Sig α) : List (Sig α) :=
   let atrs := mulBy two (atr (.sma p) h l c)
   let middle := skip (atrIdle (.sma p) - (p - 1)) (ema p two c)
+  [add middle atrs, middle, sub middle atrs]
+
+/-- KeltnerChannel with its two public components configured separately: an ATR over any moving average
+    and an EMA of another period (`Skip(ema, Atr.IdlePeriod() - Ema.IdlePeriod())`) -/
+def keltnerChannelG (ma : MaKind) (ep : Nat) (h l c : Sig α) : List (Sig α) :=
+  let atrs := mulBy two (atr ma h l c)
+  let middle := skip (atrIdle ma - (ep - 1)) (ema ep two c)
   [add middle atrs, middle, sub middle atrs]
 
 def percentB (p : Nat) (c : Sig α) : Sig α :=
